@@ -34,7 +34,8 @@ PyEq(v, w) ==                                        \* Python ==
          [] v.t = "set"  -> Len(v.e) = Len(w.e) /\ \A j \in 1..Len(v.e) : \E m \in 1..Len(w.e) : PyEq(v.e[j], w.e[m])
          \* spec-class instances: same class and equal attributes (missing equals only missing); plain objects: identity, i.e. the same record
          [] v.t = "obj" -> v.c = w.c /\ DOMAIN v.a = DOMAIN w.a /\ (\A f \in DOMAIN v.a : PyEq(v.a[f], w.a[f])) /\ (DOMAIN v.a = {} => v = w)
-         [] v.t \in {"klist", "kset"} -> Len(v.e) = Len(w.e) /\ \A j \in 1..Len(v.e) : PyEq(v.e[j], w.e[j])
+         [] v.t = "klist" -> Len(v.e) = Len(w.e) /\ \A j \in 1..Len(v.e) : PyEq(v.e[j], w.e[j])          \* a list: order matters
+         [] v.t = "kset"  -> Len(v.e) = Len(w.e) /\ \A j \in 1..Len(v.e) : \E m \in 1..Len(w.e) : PyEq(v.e[j], w.e[m])      \* a set
          [] OTHER -> v = w
 
 Truthy(v) ==
@@ -47,8 +48,9 @@ Truthy(v) ==
 RECURSIVE EqV(_, _)
 EqV(v, w) ==
   IF v.t # w.t THEN FALSE
-  ELSE CASE v.t \in {"list", "tuple", "klist", "kset"} -> Len(v.e) = Len(w.e) /\ \A j \in 1..Len(v.e) : EqV(v.e[j], w.e[j])
-         [] v.t = "set"  -> Len(v.e) = Len(w.e) /\ \A j \in 1..Len(v.e) : \E m \in 1..Len(w.e) : EqV(v.e[j], w.e[m])
+  ELSE CASE v.t \in {"list", "tuple", "klist"} -> Len(v.e) = Len(w.e) /\ \A j \in 1..Len(v.e) : EqV(v.e[j], w.e[j])
+         \* (a KeyedSet's iteration order is not part of its value: re-preparing one re-inserts its items)
+         [] v.t \in {"set", "kset"} -> Len(v.e) = Len(w.e) /\ \A j \in 1..Len(v.e) : \E m \in 1..Len(w.e) : EqV(v.e[j], w.e[m])
          [] v.t = "dict" -> Len(v.e) = Len(w.e) /\ \A j \in 1..Len(v.e) : \E m \in 1..Len(w.e) : EqV(v.e[j].k, w.e[m].k) /\ EqV(v.e[j].v, w.e[m].v)
          [] v.t = "obj"  -> v.c = w.c /\ DOMAIN v.a = DOMAIN w.a /\ \A f \in DOMAIN v.a : EqV(v.a[f], w.a[f])
                             /\ (("x" \in DOMAIN v /\ "x" \in DOMAIN w) => DOMAIN v.x = DOMAIN w.x /\ \A g \in DOMAIN v.x : EqV(v.x[g], w.x[g]))
